@@ -24,6 +24,8 @@ def is_upper_hex(bs):
 def pred_parse_lenient(c, i, m):
     """C05: impl result of a `parse`/`fromstr` case against the property text (lenient build)."""
     p = c.split(" ")
+    if p[0] == "fromstrm":                       # from_str_with(&str, mode): the same parser, the same expectations
+        p = ["parse"] + p[1:]
     if p[0] == "parse":
         v, mode, s = p[1], p[2], pyref.unhex(p[3])
     elif p[0] == "fromstr":
@@ -57,6 +59,8 @@ def pred_parse_lenient(c, i, m):
 def pred_store(c, i, m):
     """C14 (and the shape part of C04) on `fmt` / `storebytes` cases."""
     p = c.split(" ")
+    if p[0] == "fmto":                           # the same store at another start address: drop the offset
+        p = ["fmt"] + p[1:4] + p[5:]
     if p[0] == "fmt":
         v, binb, mode, buf = p[1], pyref.unhex(p[2]), p[3], pyref.unhex(p[4])
         rep = pyref.fmt(v, binb, mode == "with")
